@@ -19,7 +19,11 @@ R2  thrust shape: the returned thrust is np.where(T < 0, D, T) (or the `>= 0`
     evaluated for drag(cd(cl(mass, rho, v_tas)), rho, v_tas), mass, v_tas,
     rocd, acceleration with rho from the ISA pressure at altitude and the
     temperature; all ratings at (altitude, v_tas, temperature).  np.clip /
-    np.maximum with the descent thrust as a lower bound is a violation.
+    np.maximum with the descent thrust as a lower bound is a violation.  A guard
+    clause that returns the limited thrust before the substitution is accepted
+    only under a condition that says no element of that thrust is negative
+    (not any(T < 0), all(T >= 0), min(T) >= 0); any other condition (no
+    descending point, all cruise, ...) lets negative thrust escape: violation.
 R3  cruise-only correction: specific ground range is np.divide(groundspeed, F,
     where=F != 0) with F = np.where(in_cruise, cruise fuel flow, nominal fuel
     flow), both from one thrust and v_tas, the thrust from calculate_thrust at
@@ -33,9 +37,21 @@ R5  MTOW clamp: in the fuel-dependent initial-mass iterations mass[0] is only
     reserve term.
 R7  assign_parameters_fromdict assigns every entry it is given (no value-based
     skipping).
-R6  equation conformance (T-ALG): every straight-line BADA-3 formula (locals
-    resolved, package helper functions looked through) equals the independent
-    transcription in reference_equations.py as an exact rational function.
+R8  a formula is a function of its arguments: a method of the model classes that can return something an earlier call
+    left on the object (`self.x` written outside __init__, also through getattr / __dict__) must do so under a key,
+    compared with the stored key, that determines by content every argument the computed answer reads; a key built
+    from id(...) of an argument, or one that omits an argument that is read, is a violation.  An embedded
+    last-result memo that leaves v_tas out of its key is the positive control.
+R6  equation conformance (T-ALG): the value every BADA-3 formula method returns - locals resolved, package helper
+    functions looked through, and `self.m(...)` calls opened by substitution when every class the object can have finds
+    the same definition of m - equals the independent transcription in reference_equations.py as an exact rational
+    function.  Two readings, one equal suffices: (1) the methods the manual has symbols for (eta, maximum climb thrust)
+    stay symbols on both sides; (2) they are opened too and the reference symbol is replaced by the manual's own
+    equation for that engine class (so cruise flow may be written `nominal flow * Cfcr`, through eta, or spelled
+    out).  `different` is taken from (1) only when both sides use the same symbols, else from (2); a rational code form
+    against an equation with clip / maximum is a definite difference.  The non-ISA correction (3.7-4..7) is compared
+    the same way with clip / maximum as opaque functions identified by the value of their arguments.  Of several
+    returns, the one computed in the call is compared (stored answers are R8's).
     Engine selection: `create_engine_model` is followed once per engine type
     with `aircraft_parameters.engine_type` bound to that string (partial
     evaluation over the CFG: if/elif, guard clauses, `match` with literal /
@@ -168,13 +184,19 @@ class Flow:
     Names bound under a branch or a loop, or by an unpacking that is not element-wise, stay opaque (they resolve to
     themselves)."""
 
-    def __init__(self, prog, fi, inline=True, _depth=0):
+    def __init__(self, prog, fi, inline=True, _depth=0, methods=False, keep=()):
+        """methods: also open `self.m(...)` calls of methods whose dispatch is certain (see _inlinable); keep: method
+        names that stay calls (they are symbols of the reference equations)"""
         self.prog, self.fi, self.inline, self.depth = prog, fi, inline, _depth
+        self.methods, self.keep = methods, frozenset(keep)
         self.env: dict[str, ast.expr] = {}
         self.stores: list[tuple[ast.expr, ast.expr, ast.stmt]] = []   # (target, resolved value, stmt)
         self.ret = None
         self.returns = 0
         self.straight = True
+        # guard clauses `if c: [assignments]; return v` at the top level: (resolved c, resolved v, the if statement); the
+        # function goes on straight-line after them with the values it had before
+        self.early: list[tuple[ast.expr, ast.expr | None, ast.stmt]] = []
         for s in fi.node.body:
             self._stmt(s)
 
@@ -227,6 +249,17 @@ class Flow:
             pass
         elif isinstance(s, (ast.FunctionDef, ast.AsyncFunctionDef, ast.ClassDef)):
             self.env.pop(s.name, None)
+        elif isinstance(s, ast.If) and not s.orelse and s.body and isinstance(s.body[-1], ast.Return) and self.ret is None \
+                and all(isinstance(x, (ast.Assign, ast.AnnAssign, ast.Expr, ast.Pass)) and
+                        all(isinstance(t, ast.Name) for t in (x.targets if isinstance(x, ast.Assign) else [getattr(x, 'target', ast.Name('_'))]))
+                        for x in s.body[:-1]):
+            saved_env, saved_stores = dict(self.env), list(self.stores)
+            cond = self.resolve(s.test)
+            for x in s.body[:-1]:
+                self._stmt(x)
+            v = self.resolve(s.body[-1].value) if s.body[-1].value is not None else None
+            self.early.append((cond, v, s))
+            self.env, self.stores = saved_env, saved_stores
         else:
             # compound statement: whatever it binds is not a straight-line value
             self.straight = False
@@ -242,10 +275,20 @@ class Flow:
             return None
         from ..resolve import resolve_call
         f = resolve_call(self.prog, self.fi, c)
-        if f is None or f.cls is not None or '.<locals>.' in f.qualname or not f.file.startswith('src/AEIC/BADA/'):
+        if f is None or '.<locals>.' in f.qualname or not f.file.startswith('src/AEIC/BADA/'):
             return None
         if f.node.decorator_list:
             return None
+        if f.cls is not None:
+            # a method: only `self.m(...)` from a method of the same object, and only when every class the object can
+            # have (the caller's class and its subclasses) finds the same definition of m - then the call *is* that body
+            k = self.fi.cls
+            if not self.methods or k is None or self.fi.params[:1] != ['self'] or f.name in self.keep or f == self.fi \
+                    or not (isinstance(c.func, ast.Attribute) and isinstance(c.func.value, ast.Name) and c.func.value.id == 'self') \
+                    or f.params[:1] != ['self']:
+                return None
+            if any(s_.find_method(f.name) != f for s_ in self.prog.all_classes() if any(b is k for b in s_.mro())):
+                return None
         return f
 
     def _inline_calls(self, e):
@@ -257,9 +300,9 @@ class Flow:
                 f = flow._inlinable(c)
                 if f is None:
                     return c
-                sub = Flow(flow.prog, f, True, flow.depth + 1)
-                b = bind_args(c, f.node, False)
-                if b is None or not sub.straight or sub.returns != 1 or sub.ret is None or sub.stores:
+                sub = Flow(flow.prog, f, True, flow.depth + 1, flow.methods, flow.keep)
+                b = bind_args(c, f.node, f.cls is not None)
+                if b is None or not sub.straight or sub.returns != 1 or sub.ret is None or sub.stores or sub.early:
                     return c
                 return _Subst(b).visit(_clone(sub.ret))
 
@@ -336,6 +379,35 @@ def _state_args(prog, fi, c, expect: dict):
 RHO = 'calculate_air_density(pressure_at_altitude_isa_bada4(altitude), temperature)'
 
 
+def _none_negative(cond, v):
+    """`cond` says that no element of `v` is negative: not any(v < 0), all(v >= 0), min(v) >= 0 (np. functions or methods)"""
+    neg = False
+    while isinstance(cond, ast.UnaryOp) and isinstance(cond.op, ast.Not):
+        cond, neg = cond.operand, not neg
+    if not isinstance(cond, (ast.Call, ast.Compare)):
+        return False
+    if isinstance(cond, ast.Compare):
+        cm = _cmp(cond)
+        if cm is None or neg:
+            return False
+        l, op, r = cm
+        if _is_zero(l):
+            l, op, r = r, _CMP_FLIP[op], l
+        return _is_zero(r) and op is ast.GtE and isinstance(l, ast.Call) and call_name(l).split('.')[-1] in ('min', 'amin', 'nanmin') \
+            and _same((l.args[0] if l.args else getattr(l.func, 'value', None)), v)
+    f = call_name(cond).split('.')[-1]
+    inner = cond.args[0] if cond.args else getattr(cond.func, 'value', None)
+    cm = _cmp(inner) if inner is not None else None
+    if cm is None or f not in ('any', 'all'):
+        return False
+    l, op, r = cm
+    if _is_zero(l):
+        l, op, r = r, _CMP_FLIP[op], l
+    if not _is_zero(r) or not _same(l, v):
+        return False
+    return (f == 'any' and neg and op is ast.Lt) or (f == 'all' and not neg and op is ast.GtE)
+
+
 def rule_thrust(ctx):
     prog = ctx.prog
     m = prog.module(MODEL)
@@ -343,7 +415,7 @@ def rule_thrust(ctx):
     fl = Flow(prog, ct)
     R = fl.ret
     if not fl.straight or fl.returns != 1 or R is None:
-        ctx.undecided('C19-R2', ct, 'thrust', 'calculate_thrust is not a straight-line function with one return')
+        ctx.undecided('C19-R2', ct, 'thrust', 'calculate_thrust is not a straight-line function with one return (guard clauses aside)')
     line = R.lineno
 
     # definite wrong forms: a lower *bound* (clip / maximum) instead of substitution where negative
@@ -387,6 +459,14 @@ def rule_thrust(ctx):
            'np.where(T < 0, descent thrust, T) with T the limited thrust' if oks else why, line=line)
     if not oks:
         return
+    # a guard clause that returns before the substitution may only do so when no thrust is negative
+    for cond, v, st in fl.early:
+        oke = v is not None and _none_negative(cond, v)
+        ctx.ob('C19-R2', ct, f'early return when `{norm(st.test)[:50]}`', oke,
+               'taken only when no thrust is negative: nothing to substitute' if oke else
+               (f'the thrust is returned before negative values are replaced by the descent thrust, under a condition (`{norm(st.test)[:60]}`) '
+                'that does not rule out negative total-energy thrust (level or climbing flight with a firm deceleration has drag + m·a < 0): '
+                'negative thrust, negative fuel flow and zero fuel burn on those steps'), line=st.lineno)
 
     # 2: cap
     TE = MX = None
@@ -503,7 +583,7 @@ def rule_fuelflow(ctx):
     sg = m.func('Bada3FuelBurnModel.calculate_specific_ground_range')
     fl = Flow(prog, sg)
     R = fl.ret
-    if not fl.straight or fl.returns != 1 or R is None:
+    if not fl.straight or fl.returns != 1 or R is None or fl.early:
         ctx.undecided('C19-R3', sg, 'specific ground range', 'not a straight-line function with one return')
     # specific ground range = ground speed / fuel flow behind a non-zero guard
     FF = None
@@ -607,7 +687,7 @@ def rule_update(ctx):
     for f, tgt, anchor, fwd in ((fw, 'mass[1:]', 'mass[0]', True), (bw, 'mass[:-1]', 'mass[-1]', False)):
         fl = Flow(prog, f)
         st = [(t, v, s) for t, v, s in fl.stores if isinstance(t, ast.Subscript) and norm(t.value) == 'mass']
-        if not fl.straight:
+        if not fl.straight or fl.early:
             ctx.undecided('C19-R4', f, 'mass update', 'not a straight-line function')
         ok, sgrc, why = False, None, None
         if len(st) == 1 and norm(st[0][0]) == tgt and isinstance(st[0][1], ast.BinOp) \
@@ -713,45 +793,300 @@ def rule_mtow(ctx):
                line=(d[0].lineno if d else f.node.lineno))
 
 
+# (3.7-4..7) non-ISA correction of the maximum climb thrust; clip / maximum are opaque functions whose arguments are
+# compared as exact rational functions
+NON_ISA = ('MAXCLIMB_ISA * (1 - clip(DT_EFF * maximum(0, c_tc5), 0, 0.4))',
+           {'DT_EFF': 'temperature - temperature_at_altitude_isa_bada4(altitude) - c_tc4'})
+
+
 def rule_equations(ctx):
+    """Every BADA-3 formula, as the value the method returns, against the manual's equation.
+
+    The returned value is resolved (locals through their definitions, helper functions of the package and `self.`
+    methods whose dispatch is certain replaced by what they return), so it does not matter in how many steps or through
+    which of its sibling methods a quantity is computed (cruise flow as `nominal flow * Cfcr`, or spelled out).  Two
+    readings are compared, and one that is equal suffices: (1) calls of the methods the manual has symbols for (eta, the
+    maximum climb thrust) stay symbols on both sides; (2) those calls are opened too and the reference symbol is replaced
+    by the manual's own equation for that engine class.  A verdict `different` is taken from reading (1) when both sides
+    use the same symbols, else from reading (2)."""
     prog = ctx.prog
     m = prog.module(MODEL)
     consts = module_constants(prog.module('units.py'))
+    consts.update(module_constants(m, consts))
+    syms = set(BADA3_CALLS.values())
+    classes = list(m.classes.values())
     n = 0
     for qn, (ref, defs) in BADA3.items():
         fi = m.func(qn)
-        r = returned_expr(fi.node)
+        r = computed_return(fi, classes)
         if r is None:
             ctx.undecided('C19-R6', fi, 'return', 'not a single-return function')
-        fl = Flow(prog, fi)
-        if fl.straight and fl.returns == 1 and fl.ret is not None:
-            r = fl.ret   # locals resolved, helper functions of the package looked through
-        try:
-            code = code_normal_form(fi.node, r, consts, param_objs=(OBJ,), call_map=BADA3_CALLS)
-            want = ref_normal_form(ref, consts, defs)
-        except AlgebraError as e:
-            ctx.undecided('C19-R6', fi, norm(r)[:60], f'cannot normalise: {e}')
-        v, why = compare(code, want)
-        if v == 'undecided':
-            ctx.undecided('C19-R6', fi, norm(r)[:60], why)
+        cname = fi.cls.name if fi.cls is not None else ''
+
+        def ref_of_call(nm):
+            """the manual's own equation for a method the reference has a symbol for, for objects of this class"""
+            if f'{cname}.{nm}' in BADA3 and f'{cname}.{nm}' != qn:
+                return BADA3[f'{cname}.{nm}']
+            if nm == 'calculate_max_climb_thrust' and nm != fi.name:
+                return NON_ISA
+            return None
+        verdicts = []
+        for level in (1, 2):
+            keep = set(BADA3_CALLS) if level == 1 else {nm for nm in BADA3_CALLS if ref_of_call(nm) is None}
+            fl = Flow(prog, fi, methods=True, keep=keep)
+            e = fl.ret if fl.straight and fl.returns == 1 and fl.ret is not None and not fl.early else r
+            try:
+                code = code_normal_form(fi.node, e, consts, param_objs=(OBJ,), call_map=BADA3_CALLS)
+                rdefs = dict(defs)
+                want = ref_normal_form(ref, consts, rdefs)
+                if level == 2:
+                    # a reference symbol the code side no longer has (its method was opened) is replaced by its equation
+                    for _ in range(4):
+                        gone = {nm for nm, sym in BADA3_CALLS.items() if sym in want.atoms() - code.atoms() and ref_of_call(nm) and sym not in rdefs}
+                        if not gone:
+                            break
+                        for nm in gone:
+                            rf, rd = ref_of_call(nm)
+                            rdefs[BADA3_CALLS[nm]] = rf
+                            rdefs.update(rd)
+                        want = ref_normal_form(ref, consts, rdefs)
+            except AlgebraError as ex:
+                verdicts.append(('undecided', f'cannot normalise: {ex}', False))
+                continue
+            v, why = compare(code, want)
+            from ..conform import opaque_atoms
+            if v == 'undecided' and not opaque_atoms(code) and opaque_atoms(want):
+                # a rational function of the symbols is never one with clip / maximum / non-integer powers of them
+                v, why = 'different', f'the code has none of the {sorted(a.split("(")[0] for a in opaque_atoms(want))} terms of the equation: code = {str(code)[:120]}'
+            verdicts.append((v, why, level == 2 or (code.atoms() & syms) == (want.atoms() & syms)))
+            if v == 'equal':
+                break
+        if any(v == 'equal' for v, _, _ in verdicts):
+            v, why = 'equal', ''
+        else:
+            trusted = [(v, why) for v, why, sure in verdicts if v == 'different' and sure]
+            if not trusted:
+                und = [why for v, why, _ in verdicts if v == 'undecided'] or [why for _, why, _ in verdicts]
+                ctx.undecided('C19-R6', fi, norm(r)[:60], und[0])
+            v, why = trusted[0]
+            if verdicts[0][0] == 'different':
+                why = verdicts[0][1]      # the difference in the manual's own symbols reads best
         n += 1
         ctx.ob('C19-R6', fi, f'≡ {ref}', v == 'equal',
                'equal to the BADA-3 manual equation as an exact rational function' if v == 'equal' else
                f'differs from the BADA-3 manual equation `{ref}`: {why}', line=r.lineno)
     ctx.floor('C19-R6', n, 20, 'BADA-3 equations compared')
-    # non-ISA correction (3.7-4..7): opaque clip/maximum, compared structurally
+    # non-ISA correction (3.7-4..7): the value returned, with clip / maximum as opaque functions of exact arguments
     mc = m.func('Bada3EngineModel.calculate_max_climb_thrust')
-    r = returned_expr(mc.node)
-    dte = single_def_value(mc.node, 'delta_temperature_eff')
-    dt = single_def_value(mc.node, 'delta_temperature')
-    ok = r is not None and norm(r) == ("self.calculate_max_climb_thrust_isa(altitude, v_tas) * (1 - np.clip(delta_temperature_eff * "
-                                       "np.maximum(0, self.aircraft_parameters['c_tc5']), 0, 0.4))")
-    ok = ok and dte is not None and norm(dte) == "delta_temperature - self.aircraft_parameters['c_tc4']" \
-        and dt is not None and norm(dt) == 'temperature - temperature_at_altitude_isa_bada4(altitude)'
+    r = computed_return(mc, classes)
+    if r is None:
+        ctx.undecided('C19-R6', mc, 'return', 'not a single-return function')
+    fl = Flow(prog, mc, methods=True, keep=set(BADA3_CALLS))
+    e = fl.ret if fl.straight and fl.returns == 1 and fl.ret is not None and not fl.early else r
+    try:
+        code = code_normal_form(mc.node, e, consts, param_objs=(OBJ,), call_map=BADA3_CALLS)
+        want = ref_normal_form(NON_ISA[0], consts, NON_ISA[1])
+    except AlgebraError as ex:
+        ctx.undecided('C19-R6', mc, norm(r)[:60], f'cannot normalise: {ex}')
+    from ..conform import explain_difference
+    d = explain_difference(code, want)
+    if d is not None and not d[2]:
+        ctx.undecided('C19-R6', mc, norm(r)[:60], d[1])
+    ok, why = d is None, (d[1] if d is not None else '')
     ctx.ob('C19-R6', mc, 'non-ISA correction: ISA thrust × (1 − clip(ΔT_eff·max(0, Ctc5), 0, 0.4)), ΔT_eff = ΔT − Ctc4', bool(ok),
-           'matches (3.7-4..7)' if ok else 'temperature correction of the maximum climb thrust changed',
-           line=(r.lineno if r is not None else mc.node.lineno))
+           'matches (3.7-4..7)' if ok else f'temperature correction of the maximum climb thrust changed: {why}',
+           line=r.lineno)
     rule_engine_dispatch(ctx)
+
+
+# --- R8: a formula is a function of its arguments ------------------------------------------------------------
+#
+# Thrust and fuel flow are evaluated "at the state passed in".  A method that may answer from something an earlier call
+# left on the object (a last-result memo, a table in an attribute) is only such a function when the stored answer is
+# returned under a key that determines, by content, every argument the computed answer reads.
+
+_STATE_CONTROL = """
+class M:
+    def __init__(self, p):
+        self.p = p
+        self._key = None
+        self._val = None
+    def rating(self, altitude, v_tas, temperature):
+        key = (np.asarray(altitude).tobytes(), np.asarray(temperature).tobytes())
+        if key == self._key:
+            return self._val
+        out = self.isa(altitude, v_tas) * (1 - temperature * self.p.c)
+        self._key = key
+        self._val = out
+        return out
+"""
+
+
+def _follow(fn, e, depth=0):
+    """`e` with a local that is bound once replaced by what it is bound to: (expression, component index or None)"""
+    from ..astutil import tuple_def_component
+    idx = None
+    while isinstance(e, ast.Name) and depth < 6:
+        depth += 1
+        v = single_def_value(fn, e.id)
+        if v is not None:
+            e = v
+            continue
+        tc = tuple_def_component(fn, e.id)
+        if tc is None:
+            break
+        v, i = tc
+        if isinstance(v, (ast.Tuple, ast.List)) and len(v.elts) > i:
+            e = v.elts[i]
+            continue
+        e, idx = v, i
+        while isinstance(e, ast.Name) and depth < 6:
+            depth += 1
+            v = single_def_value(fn, e.id)
+            if v is None:
+                break
+            e = v
+        break
+    return e, idx
+
+
+def _state_attr(fn, e, state):
+    """name of the run-time instance attribute `e` is read from (self.a, self.a[k], self.a.get(k), a component of it)"""
+    e, _ = _follow(fn, e)
+    while True:
+        if isinstance(e, ast.Subscript) and norm(e.value) in ('self.__dict__', 'vars(self)') and isinstance(e.slice, ast.Constant):
+            return e.slice.value if e.slice.value in state else None
+        if isinstance(e, ast.Subscript):
+            e = e.value
+        elif isinstance(e, ast.Call) and isinstance(e.func, ast.Attribute) and e.func.attr in ('get', 'copy', 'item') \
+                and norm(e.func.value) not in ('self.__dict__', 'vars(self)'):
+            e = e.func.value
+        else:
+            break
+    if isinstance(e, ast.Attribute) and isinstance(e.value, ast.Name) and e.value.id == 'self' and e.attr in state:
+        return e.attr
+    # the same attribute read by name: getattr(self, 'a'[, default]), self.__dict__['a'] / .get('a') / .setdefault('a', …), vars(self)[…]
+    key = None
+    if isinstance(e, ast.Call) and isinstance(e.func, ast.Name) and e.func.id == 'getattr' and len(e.args) >= 2 and norm(e.args[0]) == 'self':
+        key = e.args[1]
+    elif isinstance(e, ast.Call) and isinstance(e.func, ast.Attribute) and e.func.attr in ('setdefault', 'get') and e.args \
+            and norm(e.func.value) in ('self.__dict__', 'vars(self)'):
+        key = e.args[0]
+    if isinstance(key, ast.Constant) and key.value in state:
+        return key.value
+    return None
+
+
+def stored_answers(fn, state):
+    """[(return stmt, attribute, key expr or None)] for returns of `fn` that hand out instance state written at run time;
+    the key is what is compared (== / in) with instance state on the way to that return"""
+    from ..astutil import conjuncts
+    out = []
+    for r in walk_no_nested(fn):
+        if not isinstance(r, ast.Return) or r.value is None:
+            continue
+        a = _state_attr(fn, r.value, state)
+        if a is None:
+            continue
+        key = None
+        for test, pol, _o in guards_of(r):
+            for c, p_ in conjuncts(test, pol):
+                if not (isinstance(c, ast.Compare) and len(c.ops) == 1):
+                    continue
+                op = c.ops[0]
+                l, rr = c.left, c.comparators[0]
+                if (isinstance(op, ast.Eq) and p_) or (isinstance(op, ast.NotEq) and not p_):
+                    if _state_attr(fn, rr, state) and not _state_attr(fn, l, state):
+                        key = l
+                    elif _state_attr(fn, l, state) and not _state_attr(fn, rr, state):
+                        key = rr
+                elif (isinstance(op, ast.In) and p_) or (isinstance(op, ast.NotIn) and not p_):
+                    if _state_attr(fn, rr, state):
+                        key = l
+        out.append((r, a, key))
+    return out
+
+
+def _runtime_state(k, classes):
+    """attributes of objects of class k that a method other than __init__ stores to (in k, its bases or its subclasses)"""
+    from ..resolve import self_attr_stores
+    out = set()
+    for c in classes:
+        if any(b is k for b in c.mro()) or any(b is c for b in k.mro()):
+            for nm, meth in c.methods.items():
+                if nm not in ('__init__', '__post_init__'):
+                    out |= {a for a, _st, _how in self_attr_stores(meth)}
+                    for x in walk_no_nested(meth.node):
+                        if isinstance(x, ast.Call) and isinstance(x.func, ast.Name) and x.func.id == 'setattr' and len(x.args) == 3 \
+                                and norm(x.args[0]) == 'self' and isinstance(x.args[1], ast.Constant):
+                            out.add(x.args[1].value)
+                        if isinstance(x, ast.Call) and isinstance(x.func, ast.Attribute) and x.func.attr == 'setdefault' and x.args \
+                                and norm(x.func.value) in ('self.__dict__', 'vars(self)') and isinstance(x.args[0], ast.Constant):
+                            out.add(x.args[0].value)
+                        if isinstance(x, ast.Subscript) and isinstance(x.ctx, ast.Store) and norm(x.value) in ('self.__dict__', 'vars(self)') \
+                                and isinstance(x.slice, ast.Constant):
+                            out.add(x.slice.value)
+    out.discard('__dict__')
+    return out
+
+
+def _key_verdict(fn, key, params):
+    """(ok, why) for a stored answer handed out under `key`"""
+    from .memo import key_covers_inputs
+    if key is None:
+        return None, 'no comparison of a key with the stored state guards the return'
+    kexpr, _ = _follow(fn, key)
+    ids = [c for c in ast.walk(kexpr) if isinstance(c, ast.Call) and isinstance(c.func, ast.Name) and c.func.id == 'id'
+           and c.args and any(isinstance(x, ast.Name) and x.id in params for x in ast.walk(c.args[0]))]
+    if ids:
+        return False, (f'the stored answer is returned when `{norm(ids[0])}` is the same *object identity* as last time: arrays updated in '
+                       'place, or a new array at a recycled address, get the thrust of the earlier contents')
+    ok, why = key_covers_inputs(fn, key, params)
+    return ok, why
+
+
+def rule_state(ctx):
+    prog = ctx.prog
+    m = prog.module(MODEL)
+    ctl = ast.parse(_STATE_CONTROL).body[0]
+    for x in ast.walk(ctl):
+        for ch in ast.iter_child_nodes(x):
+            ch._parent = x
+    cfn = next(x for x in ctl.body if isinstance(x, ast.FunctionDef) and x.name == 'rating')
+    sa_ = stored_answers(cfn, {'_key', '_val'})
+    ctx.control('C19-R8', len(sa_) == 1 and sa_[0][2] is not None and _key_verdict(cfn, sa_[0][2], ['altitude', 'v_tas', 'temperature'])[0] is False,
+                'embedded last-result memo keyed on altitude and temperature only (v_tas read, not in the key) is rejected')
+    classes = list(m.classes.values())
+    n = 0
+    for fi in m.functions.values():
+        if fi.cls is None or fi.name.startswith('__') or '.<locals>.' in fi.qualname:
+            continue
+        n += 1
+        state = _runtime_state(fi.cls, classes)
+        if not state:
+            continue
+        params = [p_ for p_ in fi.params if p_ not in ('self', 'cls')]
+        for r, attr, key in stored_answers(fi.node, state):
+            ok, why = _key_verdict(fi.node, key, params)
+            if ok is None:
+                if not params:
+                    continue
+                ctx.undecided('C19-R8', fi, f'return {norm(r.value)[:40]}', f'`self.{attr}` (written at run time) is returned, and {why}')
+            ctx.ob('C19-R8', fi, f'stored `self.{attr}` returned under key {norm(_follow(fi.node, key)[0])[:60]}', ok,
+                   why if ok else f'{why}: the method answers for the state of an earlier call, not the one passed in '
+                   '(thrust limits and fuel flow of another altitude / speed / temperature enter the mass integration)',
+                   line=r.lineno)
+    ctx.floor('C19-R8', n, 30, 'methods of the BADA-3 model classes examined for answers from instance state')
+
+
+def computed_return(fi, classes):
+    """the one `return` of a method that hands out a value computed in this call (stored answers are R8's business)"""
+    rets = [n for n in walk_no_nested(fi.node) if isinstance(n, ast.Return) and n.value is not None]
+    if len(rets) > 1 and fi.cls is not None:
+        st = _runtime_state(fi.cls, classes)
+        memo = {id(r) for r, _a, _k in stored_answers(fi.node, st)} if st else set()
+        rets = [r for r in rets if id(r) not in memo]
+    return rets[0].value if len(rets) == 1 else None
 
 
 # --- engine selection: the dispatch decided by specialising the function on each engine type ---------------
@@ -1211,6 +1546,7 @@ def run(ctx):
     rule_fuelflow(ctx)
     rule_update(ctx)
     rule_mtow(ctx)
+    rule_state(ctx)
     rule_equations(ctx)
     ctx.assumptions += ['scipy cumulative_trapezoid implements the trapezoid rule; numpy where/divide semantics',
                         'reference equations transcribed from the BADA 3 user manual (sections 3.2, 3.6, 3.7, 3.9)']
